@@ -51,6 +51,19 @@ class P:
 
 
 @symbol
+@dataclass(eq=False, repr=False)
+class P2(P):
+    """a subclass and (P3) a subclass of the subclass: instances of both are instances of P, also for a variable
+    that ranges over the registry"""
+
+
+@symbol
+@dataclass(eq=False, repr=False)
+class P3(P2):
+    pass
+
+
+@symbol
 @dataclass(eq=True)
 class PE:
     """Like P but with VALUE equality: two distinct instances with equal fields compare equal (identity != equality)."""
@@ -188,7 +201,7 @@ def build_world(spec):
     """spec = {"P": [{a,b,s,t,d,flag}, ...], "Q": [{a,b,p:<index into P>}, ...]}  ->  {"P": [objs], "Q": [objs]}"""
     ps = []
     for i, f in enumerate(spec.get("P", [])):
-        ps.append(P(a=_num(f.get("a", 1)), b=_num(f.get("b", 1)), s=f.get("s", "x"), t=_tup(f.get("t", ())),
+        ps.append([P, P2, P3][f.get("cls", 0)](a=_num(f.get("a", 1)), b=_num(f.get("b", 1)), s=f.get("s", "x"), t=_tup(f.get("t", ())),
                     d=dict(f.get("d", {})), flag=f.get("flag", True), ix=i))
     qs = []
     for i, f in enumerate(spec.get("Q", [])):
